@@ -73,6 +73,7 @@ func TestC09Stateful(t *testing.T) {
 		"lock sources are ordinary accounts (not lock accounts)", "epoch ticks reach Balance through Netmap's subscriber fan-out or by the Alphabet calling Balance.newEpoch directly")
 	runRapid(t, col, func(rt *rapid.T, h *ev.History) {
 		n := rapid.SampledFrom([]int{1, 1, 3}).Draw(rt, "n")
+		drawValidators(rt, h, n)
 		w := newBalWorld(n, h)
 		defer w.close()
 		alpha := []neotest.Signer{w.c.Alphabet}
